@@ -41,7 +41,7 @@ def project(m):
         return {"k": "list", "tok": m.op, "args": [project(c) for c in m.children]}
     if isinstance(m, Function):
         tok = m.name + "".join("." + q for q in m.qualifiers)
-        c = m._function_or_equality
+        c = m.children[0] if m.children else None      # the function's one child (public tree structure)
         if c is None:
             args = []
         elif isinstance(c, Equality) and c.op == ",":
@@ -114,11 +114,15 @@ def parse_match(text):
             p = CsvPath()
             m = p.parse(text, disposably=True)
             raw = LarkParser().parse(p.match)        # the match part the implementation itself cut out
-            amb = has_ambig(raw)
-            comps = [project(e[0]) for e in m.expressions]
-        return comps, amb, None, p
     except Exception as e:
         return None, False, f"{type(e).__name__}: {e}"[:300], None
+    # reading the tree is the harness's own business: if that fails the harness is broken, not the parser (MachineryError, exit 2)
+    try:
+        amb = has_ambig(raw)
+        comps = [project(e[0]) for e in m.expressions]
+    except Exception as e:
+        raise MachineryError(f"the projection of the implementation's parse tree failed: {type(e).__name__}: {e}")
+    return comps, amb, None, p
 
 
 SEPS = [" ", "\n", "  ", "\n\t ", " ~ a note ~ ", "\n~ check: later\nsecond line ~\n", "~c~"]
